@@ -20,7 +20,11 @@ func runScenario(sc Scenario) History {
 	if err != nil {
 		return History{Exit: "infra", Stderr: err.Error()}
 	}
-	ctx, cancel := context.WithTimeout(context.Background(), 120*time.Second)
+	budget := 120 * time.Second
+	if sc.MaxMs > 0 {
+		budget = time.Duration(sc.MaxMs)*time.Millisecond + 60*time.Second
+	}
+	ctx, cancel := context.WithTimeout(context.Background(), budget)
 	defer cancel()
 	cmd := exec.CommandContext(ctx, exe)
 	cmd.Env = append(os.Environ(), "VERIF_CHILD=1", "GORACE=halt_on_error=0 atexit_sleep_ms=0 exitcode=0 history_size=3", "GOMAXPROCS=2")
